@@ -67,6 +67,7 @@ CallsExpected(o) ==
     \cup TwoObjCalls(o)
     \cup {C(op, [X0 EXCEPT !.d = d]) : op \in {"value_or", "value_or_mv"}, d \in Dom(Alts[1])}
     \cup {C("error_or", [X0 EXCEPT !.d = d]) : d \in Dom(Alts[2])}
+    \cup {C("unex", [X0 EXCEPT !.v = v, !.d = d]) : v \in Dom(Alts[2]), d \in Dom(Alts[2])}
     \cup UNION {{C(op, [X0 EXCEPT !.t = t, !.v = v]) : op \in {"cmp_value", "cmp_unexpected"}, v \in Dom(t)} : t \in SrcTypes}
 
 Calls(o) == CASE Kind = "optional" -> CallsOptional(o)
